@@ -206,6 +206,10 @@ def run(fx, tier):
     if 'R-DOM' not in v.rules:
         v.rule('R-DOM', 'reply matching on control code and packet identifier')
     reply_matching_rule(fx, v, 'C14')
+    from c18 import prop_parser_rules
+    if 'R-FLOW' not in v.rules:
+        v.rule('R-FLOW', 'provenance')
+    prop_parser_rules(fx, v, 'C14', ('suback_props', 'unsuback_props'))
     v.expect_min('R-DOM', 8, 'fast-reply discipline')
     v.expect_min('R-CGRAPH', 10, 'success-capable completions of both siblings × TUs')
     v.expect_min('R-FLOW', 80, 'provenance sites')
